@@ -8,6 +8,7 @@ import (
 	"encoding/json"
 	"errors"
 	"io"
+	"strings"
 )
 
 // ---- named forms of the concrete kinds ----
@@ -258,6 +259,26 @@ var bsDestSupported = []string{"readerfrom", "writer", "buffer", "binunm", "*str
 var bsDestOther = []string{"nil", "nil-*string", "nil-*[]byte", "nil-*named-string", "nil-*named-bytes", "nil-*struct", "nil-*iface",
 	"string", "[]byte", "int", "*int", "*struct", "*iface-nil", "*iface-int", "**string", "**[]byte", "map", "*map", "chan", "func", "*[]string", "*[]uint16", "*[4]byte"}
 
+// typed-nil pointers of the kinds a consumer recognises through an INTERFACE before it looks at the value: a nil
+// *bytes.Buffer / *bufio.Writer (io.ReaderFrom and io.Writer), a nil *strings.Builder (io.Writer only), nil pointers
+// to user types whose ReadFrom / UnmarshalBinary / UnmarshalText has a pointer receiver. "nil ... destinations yield
+// an error, never a panic": the consumer must refuse them before it calls a method on the nil receiver.
+var bsDestNilIface = []string{"nil-*buffer", "nil-*builder", "nil-*bufio-writer", "nil-*readerfrom", "nil-*binunm", "nil-*binunm-strkind", "nil-*binunm-byteskind"}
+var textDestNilIface = []string{"nil-*textunm", "nil-*textunm-strkind"}
+
+// TRIAGE-PENDING (round 5, alarm /tmp/alarms5/C15-text-nil-textunmarshaler.*): TextConsumer calls UnmarshalText on
+// a nil pointer destination that implements encoding.TextUnmarshaler (non-empty input) and panics on the unchanged
+// tree. While the lead triages it, exactly these kinds are kept out of the generator for the TEXT codec; set to
+// false to drive them (replay files that name these kinds run whatever the switch says).
+const triagePendingTextNilUnmarshaler = false
+
+func init() {
+	bsDestOther = append(bsDestOther, bsDestNilIface...)
+	if !triagePendingTextNilUnmarshaler {
+		textDestOther = append(textDestOther, textDestNilIface...)
+	}
+}
+
 var textDestSupported = []string{"textunm", "*string", "*named-string", "textunm-strkind"}
 var textDestOther = []string{"nil", "nil-*string", "nil-*named-string", "nil-*struct", "string", "int", "*int", "*struct", "*[]byte", "*iface-string", "**string", "map", "chan", "func"}
 
@@ -371,6 +392,24 @@ func mkDest(codec, kind string, pre []byte, o Script, bufsz int) (d dest, ok boo
 		d.v = (*plainStruct)(nil)
 	case "nil-*iface":
 		d.v = (*interface{})(nil)
+	case "nil-*buffer":
+		d.v = (*bytes.Buffer)(nil)
+	case "nil-*builder":
+		d.v = (*strings.Builder)(nil)
+	case "nil-*bufio-writer":
+		d.v = (*bufio.Writer)(nil)
+	case "nil-*readerfrom":
+		d.v = (*rfDest)(nil)
+	case "nil-*binunm":
+		d.v = (*buDest)(nil)
+	case "nil-*binunm-strkind":
+		d.v = (*hexBin)(nil)
+	case "nil-*binunm-byteskind":
+		d.v = (*hexBytes)(nil)
+	case "nil-*textunm":
+		d.v = (*tuDest)(nil)
+	case "nil-*textunm-strkind":
+		d.v = (*hexText)(nil)
 	case "string":
 		d.v = string(pre)
 	case "[]byte":
